@@ -3,7 +3,7 @@ Theorems: coq/Properties/C10.v over Model/Engine.v.  Tie: worlds with natural fa
 paths: a directory where the source has a file, a file where the source has a directory with children)
 through the real binary vs Engine.run; fault injection at the k-th file-system call through the
 LD_PRELOAD shim (shim/fsfault.c) when it is built."""
-import json, os, subprocess
+import json, os, subprocess, shutil
 import vlib, world, engine_world as ew
 import c01
 from common import proof_phase, TRUSTED_COMMON
@@ -41,6 +41,102 @@ def add_conflicts(r, sspec, dspec):
     return affected
 
 
+def injected_faults(sc, seed, tier):
+    """the property's own quantifier: one fault (and pairs) at the k-th mutating system call, errno in {EIO, ENOSPC, EACCES, ENOENT}:
+    the run under an LD_PRELOAD shim that numbers the mutating libc calls below the scratch root and makes call k fail.
+    Judged against the statement: the run ends; exit 0 implies the C01 postcondition; a non-zero exit comes with an error object;
+    every file the failing call did not touch ends up correct (error budget not exhausted)."""
+    import errno as E, subprocess, c09
+    viol, stats = [], {"worlds": 0, "runs": 0, "pairs": 0, "by_call": {}, "by_errno": {}, "exit_nonzero": 0}
+    ok, out = c09.build_shim()
+    if not ok:
+        return [{"world": "inject", "why": "shim did not build: " + out[-300:]}], stats
+    r = vlib.rng_for(seed, "C10-inject")
+    nworlds = 5 if tier == "quick" else 40
+    cap = 24 if tier == "quick" else 200
+    errnos = [E.EIO, E.ENOSPC, E.EACCES, E.ENOENT]
+    for i in range(nworlds):
+        sspec, dspec = ew.gen_world(r, with_big=(i % 2 == 0))
+        fl = ew.gen_flags(r, allow_delete=(i % 3 == 2))
+        fl["maxerr"] = 100
+        fl["j"] = 1 if i % 4 != 3 else 4
+        tpl = os.path.join(sc.dir, "itpl%d" % i)
+        ew.mk(tpl + "/src", sspec); ew.mk(tpl + "/dst", sorted(dspec, key=lambda e: (e["p"].count("/"), e["k"] != "d")))
+        os.makedirs(tpl + "/src", exist_ok=True); os.makedirs(tpl + "/dst", exist_ok=True)
+        base = os.path.join(sc.dir, "iw%d" % i)
+        log = base + ".log"
+        env = {"LD_PRELOAD": c09.SHIM, "SY_CRASH_ROOT": base, "SY_CRASH_LOG": log}
+
+        def one(extra):
+            shutil.rmtree(base, ignore_errors=True)
+            subprocess.run(["cp", "-a", tpl, base], check=True)
+            if os.path.exists(log):
+                os.remove(log)
+            e2 = dict(env); e2.update(extra)
+            case, obs, raw = ew.run_once(sc, base + "/src", base + "/dst", fl, ew.Ids(), extra_env=e2)
+            lines = [l.rstrip("\n").split("\t") for l in open(log, errors="replace") if l[:1].isdigit()] if os.path.exists(log) else []
+            kv = dict(x.split("=", 1) for x in obs.split(" "))
+            raw["nerr"] = int(kv["nerr"]); raw["refused"] = kv["refused"] == "1"
+            return raw, lines
+        raw0, calls = one({})
+        if raw0["rc"] != 0 or not calls or raw0["refused"]:
+            continue
+        stats["worlds"] += 1
+        ks = list(range(1, len(calls) + 1))
+        if len(ks) > cap:
+            ks = sorted(r.sample(ks, cap))
+        plans = [((k,), errnos[(k + i) % 4]) for k in ks]
+        if len(calls) >= 2:
+            for _ in range(3 if tier == "quick" else 20):
+                a, b = sorted(r.sample(range(1, len(calls) + 1), 2))
+                plans.append(((a, b), r.choice(errnos)))
+        for kk, en in plans:
+            raw, lines = one({"SY_FAIL_AT": ",".join(map(str, kk)), "SY_FAIL_ERRNO": str(en)})
+            stats["runs"] += 1; stats["pairs"] += 1 if len(kk) == 2 else 0
+            stats["by_errno"][E.errorcode[en]] = stats["by_errno"].get(E.errorcode[en], 0) + 1
+            hit = [lines[k - 1] for k in kk if len(lines) >= k]
+            for h in hit:
+                stats["by_call"][h[1]] = stats["by_call"].get(h[1], 0) + 1
+            ident = {"world": "inject-%d" % i, "flags": fl, "fail_at": list(kk), "errno": E.errorcode[en], "failed_calls": [h[1:4] for h in hit], "seed": seed}
+            if raw.get("timeout"):
+                viol.append(dict(ident, why="the run did not end after the injected fault")); continue
+            if raw["rc"] != 0:
+                stats["exit_nonzero"] += 1
+                if raw["nerr"] == 0 and not raw["refused"]:
+                    viol.append(dict(ident, why="non-zero exit status %s but no error object in the --json output" % raw["rc"]))
+            else:
+                for f in c01.c01_oracle(fl, raw, 0):
+                    viol.append(dict(ident, why="exit status 0 although the C01 postcondition fails: %s %s" % (f["path"], f["why"])))
+            # files the failing calls did not touch
+            dstroot = base + "/dst/"
+            touched = set()
+            whole_tree = False
+            for h in hit:
+                for pth in h[2:4]:
+                    if pth + "/" == dstroot:
+                        whole_tree = True          # the failing call was on the destination root itself (create_dir_all of a top-level entry's parent)
+                    if pth.startswith(dstroot):
+                        rel = pth[len(dstroot):]
+                        touched.add(rel)
+                        if rel.endswith(".sy.tmp"):
+                            touched.add(rel[:-len(".sy.tmp")])      # the working file of that destination
+            src, before, after = raw["src"], raw["before"], raw["after"]
+            for rel, sv in src.items():
+                if sv["kind"] != "f" or whole_tree or any(rel == t or rel.startswith(t + "/") for t in touched):
+                    continue
+                b = before.get(rel); b = b if (b and b["kind"] == "f") else None
+                if before.get(rel) is not None and before[rel]["kind"] != "f":
+                    continue                       # a type conflict of the world itself (C10's natural-fault family)
+                d = c01.differs_under_rule(fl, sv, b)
+                a = after.get(rel)
+                if d is True and (a is None or a.get("sha") != sv["sha"] or a.get("mtime_ns") != sv["mtime_ns"]):
+                    viol.append(dict(ident, why="file %s was not touched by the failing call(s) but did not end up correct" % rel))
+                if d is False and b is not None and (a is None or a.get("sha") != b["sha"]):
+                    viol.append(dict(ident, why="file %s was up to date, not touched by the failing call(s), and is changed or gone" % rel))
+        shutil.rmtree(base, ignore_errors=True); shutil.rmtree(tpl, ignore_errors=True)
+    return viol, stats
+
+
 def run(tier, seed):
     res = vlib.Result(PID, tier, seed)
     pr = proof_phase(res, PID)
@@ -75,9 +171,11 @@ def run(tier, seed):
             kv = dict(x.split("=", 1) for x in obs.split(" "))
             raw["nerr"] = int(kv["nerr"]); raw["refused"] = kv["refused"] == "1"; raw["affected"] = affected
             cases.append(case); obs_l.append(obs); raws.append(raw); metas.append((i, fl))
+        inj_viol, inj_stats = injected_faults(sc, seed, tier)
     model = [ew.model_obs(m) for m in vlib.run_model(cases)]
     known = {f["class"]: f for f in vlib.load_known()["findings"] if f["property"] == PID}
     diffs, viol, nontriv, hits = [], [], set(), {}
+    viol += inj_viol
     for case, o, m, raw, (i, fl) in zip(cases, obs_l, model, raws, metas):
         # the error COUNT printed through tracing is not part of the comparison here (C19); compare the rest
         strip = lambda x: " ".join(t for t in x.split(" ") if not t.startswith("nerr="))
@@ -113,14 +211,14 @@ def run(tier, seed):
                     viol.append(v)
         if planned_failed:
             nontriv.add(o)
-    res.cov["evaluations"] = len(cases)
+    res.cov["evaluations"] = len(cases) + inj_stats.get("runs", 0)
     res.cov["distinct_nontrivial"] = len(nontriv)
     res.cov["model_impl_disagreements"] = len(diffs)
     res.cov["rule"] = ("C01 worlds with natural faults: a directory where the source has a file (EISDIR), a regular file where the source has a directory with children (ENOTDIR for every descendant), "
                        "error budgets 0/1/2/100; non-trivial = at least one planned operation fails")
     res.cov["samples"] = [c[:300] for c in cases[:2]] + [obs_l[0][:300]]
-    res.cov["trusted_base"] = TRUSTED_COMMON + ["errno kinds are compared as (path, action) failures only", "EACCES cannot arise naturally (root); injected faults need the LD_PRELOAD shim"]
-    res.cov["fault_injection"] = "natural faults only in this run"
+    res.cov["trusted_base"] = TRUSTED_COMMON + ["errno kinds are compared as (path, action) failures only", "injected faults: libc-level interposition (a fault inside a direct syscall of the runtime is not reachable)", "the injected-fault runs are judged against the statement only (Engine.v has natural faults)"]
+    res.cov["fault_injection"] = dict(inj_stats, how="LD_PRELOAD shim (shim/crashshim.c): the k-th mutating libc call below the scratch root fails with the chosen errno; every k of each world (sampled above a cap), plus pairs")
     res.cov["known_finding_hits"] = {k: len(v) for k, v in hits.items()}
     for cls, f in known.items():
         h = hits.get(f["id"], [])
